@@ -6,7 +6,7 @@ TECH = "bounded symbolic execution of the real Rust code (Kani 0.68 -> CBMC 6.11
 CLAIMS = {
  # id: (level text, level note, design ref)
  "C01": ("Bounded model checking for absence of panics (unwrap/expect, arithmetic overflow, out-of-bounds, unreachable) and of unbounded loops (unwinding assertions) in every synchronous decode unit driven by arbitrary peer bytes: link sync/header/body steps and dispatch, assembler step with real buffer sizes, application fragment header, every object variation x qualifier container (parse and iterate), event-ledger counters, the receive-buffer arithmetic, attribute values.  'Never spins' is decided for the link dispatch loops as an unwinding assertion (at most 4 iterations for 1-2 bytes; a failure there is a VIOLATION).  Kani's implicit checks are the property; every harness of the families C06/C08/C09/C03 tagged C01 contributes.",
-         "Per-unit: liveness after the hostile input (keeps serving), socket chunking and everything in async session/task code is outside the claim; logging is stubbed (Display never evaluated).",
+         "Per-unit: liveness after the hostile input (keeps serving), socket chunking and everything in async session/task code is outside the claim; logging is stubbed (Display never evaluated). In particular the panic F6 (OPERATE echo larger than the transmit buffer, async handle_operate) was found by reading, demonstrated natively and repaired (fix: d0d2676), but no check of this directory would notice its return.",
          "DESIGN.md §5 C01"),
  "C03": ("Bounded model checking of the event ledger on the real EventBuffer: after every operation of an operation-kind skeleton (insert x2 types, select, write, confirm-clear, reset; all data symbolic) counters equal ground truth recomputed from the list, release happens only by clear_written with exactly-once event_cleared(id), oldest-first, overflow discards the oldest of the same type and reports both ids; the shared list is sized for the sum of all per-type limits.",
          "Skeleton lengths <= 4 in the quick tier (<= 6 attempted in thorough), capacities 2+1, Event::write abstracted to fits/does-not-fit. Which session paths call reset/clear_written (async confirm waits) is outside the claim.",
